@@ -229,6 +229,8 @@ where
         // Get the call to use and a handle for retrieving the results
         let (call, created) = self.get_call_or_create(key).await;
         let results_future = call.get_future();
+        #[cfg(feature = "verif")]
+        verif_hooks::point("sf.after.get_future");
 
         if created {
             // spawn the owner task and wait
@@ -355,6 +357,8 @@ where
         let call = this.call;
         this.got_response.store(true, Ordering::SeqCst);
         call.complete(res.clone());
+        #[cfg(feature = "verif")]
+        verif_hooks::point("sf.after.complete");
         Poll::Ready(res)
     }
 }
